@@ -144,6 +144,14 @@ def cases(ctx):
                 continue
             fn(cb)
             pair(base, cb, "edit", "%s: %s" % (bn, desc), imported=(desc != "keyAlgorithm"))
+        # the issuer is part of the configuration: naming one, or another one, changes the certificate (issuer DN, signature)
+        CA1 = {"version": 1, "subject": "CN=Issuer One, O=Org", "serialNumber": 901}
+        CA2 = {"version": 1, "subject": "CN=Issuer Two, O=Org", "serialNumber": 902}
+        pair(base, dict(copy.deepcopy(base), issuer="ca1"), "edit", "%s: issuer added" % bn, more=[("ca1.yaml", CA1)])
+        pair(dict(copy.deepcopy(base), issuer="ca1"), dict(copy.deepcopy(base), issuer="ca2"), "edit", "%s: issuer changed" % bn,
+             more=[("ca1.yaml", CA1), ("sub/ca2.yaml", CA2)])
+        pair(dict(copy.deepcopy(base), issuer="ca1"), dict(copy.deepcopy(base), issuer="ca1"), "equal", "%s: same issuer, another file name" % bn,
+             more=[("ca1.yaml", CA1)], pb="deep/er/b.json")
     # seeded double edits (thorough): two single-field edits applied together, judged by the same rule
     if not ctx.quick:
         r = random.Random(ctx.seed)
